@@ -458,6 +458,30 @@ func (e *batchEnv) loadJSON(uri string) map[string]interface{} {
 	return m
 }
 
+// chunkURIOf follows core index -> provisional index -> first chunk entry of a stored batch.
+func (e *batchEnv) chunkURIOf(anchor string) string {
+	parts := strings.SplitN(anchor, ".", 2)
+	if len(parts) != 2 {
+		return ""
+	}
+	core := e.loadJSON(parts[1])
+	if core == nil {
+		return ""
+	}
+	pu, _ := core["provisionalIndexFileUri"].(string)
+	pi := e.loadJSON(pu)
+	if pi == nil {
+		return ""
+	}
+	if ch, ok := pi["chunks"].([]interface{}); ok && len(ch) > 0 {
+		if cm, ok := ch[0].(map[string]interface{}); ok {
+			u, _ := cm["chunkFileUri"].(string)
+			return u
+		}
+	}
+	return ""
+}
+
 func (e *batchEnv) loadSet(anchor string) *fileSet {
 	parts := strings.SplitN(anchor, ".", 2)
 	fs := &fileSet{anchorCount: parts[0], transport: map[string]string{}}
@@ -934,6 +958,49 @@ func runC14(c *ctx) error {
 			r.Count("mutation_kind", strings.SplitN(a, ":", 2)[0])
 		}
 		r.Add(g, emit.App("Build_pcase", world.Limits(e.p), view, rbG, emit.Bool(pan != "")), desc, strings.Join(applied, "+")+outcome, len(applied) > 0)
+		// one object in two roles on one provider: the chunk file is first named as a core index file (whose limit it meets)
+		// and then read as the chunk file of its own batch under a chunk-file limit one byte below its size. The limits are
+		// per file type and hold on every read, whatever the provider has read before.
+		if k == 0 && i%20 == 0 {
+			if curi := e.chunkURIOf(anchor); curi != "" {
+				comp, _ := e.cas.Read(curi)
+				p2 := e.p
+				p2.MaxChunkFileSize = uint(len(comp)) - 1
+				if len(comp) > 1 && p2.MaxCoreIndexFileSize > p2.MaxChunkFileSize {
+					prov2 := txnprovider.NewOperationProvider(p2, e.ver.Parser, e.cas, compression.New(compression.WithDefaultAlgorithms()))
+					desc2 := map[string]interface{}{"mutations": []string{"two_roles:chunk_as_core_index_first"}, "anchor_string": anchor,
+						"first_anchor_string": "1." + curi, "max_chunk_file_size": p2.MaxChunkFileSize}
+					var rb2 []*operation.AnchoredOperation
+					var err1, err2, err3 error
+					pan2 := ""
+					func() {
+						defer func() {
+							if x := recover(); x != nil {
+								pan2 = fmt.Sprint(x)
+							}
+						}()
+						_, err1 = prov2.GetTxnOperations(&txn.SidetreeTxn{AnchorString: "1." + curi, Namespace: "did:sidetree"})
+						rb2, err2 = prov2.GetTxnOperations(&txn.SidetreeTxn{AnchorString: anchor, Namespace: "did:sidetree"})
+						_, err3 = prov2.GetTxnOperations(&txn.SidetreeTxn{AnchorString: anchor, Namespace: "did:sidetree"})
+					}()
+					rb2G := "None"
+					switch {
+					case pan2 != "":
+						r.Direct = append(r.Direct, out.Direct{Oracle: "no_panic", What: pan2, Case: desc2})
+					case err1 == nil:
+						r.Direct = append(r.Direct, out.Direct{Oracle: "chunk_file_is_no_core_index_file", What: "accepted", Case: desc2})
+					case err2 == nil || err3 == nil:
+						r.Direct = append(r.Direct, out.Direct{Oracle: "size_limit_holds_on_every_read",
+							What: fmt.Sprintf("chunk file of %d bytes accepted under MaxChunkFileSize %d after the same provider had read it as a core index file", len(comp), p2.MaxChunkFileSize), Case: desc2})
+						if err2 == nil {
+							rb2G = "(Some " + world.ReadBack(e.ids, rb2) + ")"
+						}
+					}
+					r.Count("two_roles", map[bool]string{true: "refused", false: "accepted"}[err2 != nil && err3 != nil])
+					r.Add(g, emit.App("Build_pcase", world.Limits(p2), view, rb2G, emit.Bool(pan2 != "")), desc2, "two_roles", true)
+				}
+			}
+		}
 	}
 	return r.Finish(100)
 }
